@@ -32,7 +32,7 @@ def redispatch(chk, only):
     """HandleContext from the main handler of a route: same context, same writer, one commit for the whole request"""
     c = dict(c04.DEV)
     c.update(MaxInt=127, AbortIdx=63, MaxG=1 if chk.tier != "thorough" else 2, MaxInner=2 if chk.tier != "thorough" else 3,
-             Scripts={"R", "N", "A", "AS", "W"})
+             Scripts={"R", "N", "A", "AS", "W", "P"})
     res = core.run_tlc("MC_Redispatch", cfg_text=core.cfg(constants=c, invariants=["RedispatchOK", "Emit"]), timeout=900)
     chk.expect_holds(res, "OneCommit over a request that re-dispatches")
     chk.add_tlc(res, "re-dispatch cases: global scripts x writer ops before HandleContext x inner chains")
